@@ -35,11 +35,14 @@ pub struct Layout {
     pub comps: Vec<(u16, u16, i32, i32)>,
     pub x_min: i16,
     pub n_points: usize,
+    /// the bounding box of the glyph header (xMin, yMin, xMax, yMax) and numberOfContours
+    pub bbox: [i16; 4],
+    pub n_contours: i16,
 }
 
 impl Layout {
     fn new(kind: &'static str, len: usize) -> Layout {
-        Layout { kind, ok: false, flags: vec![], instr: -1, used: 0, len, why: "", comps: vec![], x_min: 0, n_points: 0 }
+        Layout { kind, ok: false, flags: vec![], instr: -1, used: 0, len, why: "", comps: vec![], x_min: 0, n_points: 0, bbox: [0; 4], n_contours: 0 }
     }
     fn fail(mut self, used: usize, why: &'static str) -> Layout {
         self.ok = false;
@@ -64,9 +67,12 @@ pub fn walk(g: &[u8]) -> Layout {
         return Layout::new(if nc < 0 { "composite" } else { "simple" }, g.len()).fail(2, "eof:header");
     }
     let x_min = be16(g, 2).unwrap() as i16;
+    let bbox = [x_min, be16(g, 4).unwrap() as i16, be16(g, 6).unwrap() as i16, be16(g, 8).unwrap() as i16];
     if nc >= 0 {
         let mut l = Layout::new("simple", g.len());
         l.x_min = x_min;
+        l.bbox = bbox;
+        l.n_contours = nc;
         let n = nc as usize;
         let mut at = 10usize;
         let mut last_end: i64 = -1;
@@ -136,6 +142,8 @@ pub fn walk(g: &[u8]) -> Layout {
     }
     let mut l = Layout::new("composite", g.len());
     l.x_min = x_min;
+    l.bbox = bbox;
+    l.n_contours = nc;
     let mut at = 10usize;
     let mut have_instr = false;
     loop {
